@@ -1,7 +1,12 @@
 #!/bin/sh
-# usage: tools/mutant.sh <ID> <file relative to /repo> <python-regex> <replacement>   (applies, runs quick check, reverts)
+# usage: tools/mutant.sh <ID> <file relative to repo> <python-regex> <replacement>
+# Applies one mutation in the scratch worktree $WT (default /tmp/wt-main, created from /repo HEAD if missing),
+# runs the quick check against it, and reverts. /repo itself is never touched.
 ID=$1; F=$2; PAT=$3; REP=$4
-cd /repo || exit 9
+WT=${WT:-/tmp/wt-main}
+[ -d "$WT" ] || git -C /repo worktree add --detach "$WT" HEAD >/dev/null 2>&1
+cd "$WT" || exit 9
+git checkout -q -- . && git checkout -q --detach "$(git -C /repo rev-parse HEAD)"
 python3 - "$F" "$PAT" "$REP" <<'PY'
 import re,sys
 f,pat,rep=sys.argv[1:4]
@@ -9,11 +14,11 @@ s=open(f).read()
 n=len(re.findall(pat,s,flags=re.S))
 if n!=1:
     print("PATTERN MATCHES",n,"times"); sys.exit(7)
-open(f,'w').write(re.sub(pat,rep,s,count=1,flags=re.S))
+rep=rep.replace('\\n','\n').replace('\\t','\t')
+open(f,'w').write(re.sub(pat,lambda m: rep,s,count=1,flags=re.S))
 PY
-[ $? = 0 ] || { git checkout -- .; exit 7; }
+[ $? = 0 ] || { git checkout -q -- .; exit 7; }
 git diff | grep '^[-+]' | grep -v '^+++\|^---' | head -6
-cd /verif && VERIF_BUDGET_S=${BUDGET:-25} bin/vcheck run $ID | grep -v "^  \|history" | cut -c1-300 | head -8
-echo "exit=$?"
-git -C /repo checkout -- .
-rm -f /verif/replays/*.json
+cd /verif && VERIF_REPO=$WT VERIF_BUDGET_S=${BUDGET:-25} bin/vcheck run $ID 2>&1 | grep -v "^  \|history" | cut -c1-260 | head -${LINES_OUT:-4}
+cd "$WT" && git checkout -q -- .
+rm -f /verif/replays/$ID-*.json
